@@ -33,3 +33,50 @@ Proof. vm_compute. reflexivity. Qed.
 Print Assumptions C01_container.
 Print Assumptions C01_bigendian16.
 Print Assumptions C01_bigendian32.
+
+(* ------------------------------------------------------------------------------------------------ *)
+(* "For every source text ...": the whole pipeline model Compile.compile.  For EVERY source for which the
+   model returns a value (`= Ok` excludes Unsupported / Panic / OutOfFuel; nothing else is assumed of the
+   source) the bytes are a complete container: format 1, track count = number of tracks of the final song =
+   number of chunks, division = the time base in effect, every chunk ending with End-of-Track.  The track
+   count (1..1000: TR admits 0..999 and change_cur_track materialises every intermediate track) and the time
+   base (48..32767: read_timebase clamps it at lex time, nothing else writes it - proved over the whole lexer
+   loop and every arm of the runner) are PROVED, not assumed; the one remaining hypothesis is that the file is
+   shorter than 2^32 bytes, so that every chunk length fits its 32-bit field. *)
+From Coq Require Import String.
+From Sakura.Model Require Import Song Token LexCore RunCore Tie Compile.
+From Sakura.Proofs Require Import PipelineP.
+
+Theorem C01_compile_container : forall (src bytes log : list Z),
+  compile src = Ok (bytes, log) -> zlen bytes < 2 ^ 32 ->
+  container_ok bytes = true /\
+  exists (s : song) (bodies : list (list Z)),
+    run_source src = Ok s /\
+    parse_file bytes = Some (mkHeader 1 (zlen (s_tracks s)) (s_timebase s), bodies) /\
+    List.length bodies = List.length (s_tracks s) /\
+    (1 <= List.length (s_tracks s) <= 1000)%nat /\ 48 <= s_timebase s <= 32767.
+Proof. exact compile_container. Qed.
+
+(* the dimensions alone, for every source (no size hypothesis) *)
+Theorem C01_dims_from_source : forall (src : list Z) (s : song),
+  run_source src = Ok s -> (1 <= List.length (s_tracks s) <= 1000)%nat /\ 48 <= s_timebase s <= 32767.
+Proof. exact dims_from_source. Qed.
+
+(* non-vacuity: tracks 0..5 (0, 1, 3, 4 left empty), a time base set in the text, a chord, a tie, a tempo,
+   a time signature; the hypothesis holds and the header says 6 tracks at 480 ticks *)
+Definition ex_src : list Z :=
+  zs "TimeBase(480) TR(2) Tempo(140) TimeSignature(3,4) l4 'ceg'2 c&d e TR(5) CH(10) @(5) o4 [2 c8 d8]"%string.
+Example C01_compile_example :
+  match compile ex_src with
+  | Ok (bytes, _) =>
+      (zlen bytes <? 2 ^ 32) = true /\ container_ok bytes = true /\
+      match parse_file bytes with
+      | Some (h, bodies) => h = mkHeader 1 6 480 /\ List.length bodies = 6%nat
+      | None => False
+      end
+  | _ => False
+  end.
+Proof. vm_compute. repeat split. Qed.
+
+Print Assumptions C01_compile_container.
+Print Assumptions C01_dims_from_source.
